@@ -298,10 +298,9 @@ def run_check(prop: str, tier: str, seed: int, replay_path: Optional[str] = None
     # floors: a run that observed too little is inconclusive, not "held"
     floors = getattr(mod, "FLOORS", {})
     if floors and isinstance(next(iter(floors.values())), dict):
-        # floors only guard against "the monitors observed (almost) nothing"; the thorough floor is 3x the quick one
+        # floors only guard against "the monitors observed (almost) nothing": the quick floors apply to both tiers
+        # (several counters are finite and do not grow with the tier)
         fl = dict(floors.get("quick", {}))
-        if tier == "thorough":
-            fl = {k: 3 * v for k, v in fl.items()}
     else:
         fl = floors
     for k, need in (fl or {}).items():
